@@ -23,6 +23,7 @@ import numpy as np
 from . import common as C
 from . import geomgen as G
 from . import c01_util as U
+from . import c02_util as U2        # inds_forms / check_inds_forms (shared with C02)
 
 ANCHOR_FILES = ['spatialpandas/geometry/_algorithms/intersection.py',
                 'spatialpandas/geometry/_algorithms/orientation.py',
@@ -638,7 +639,10 @@ def run(rep):
                 'ARGUMENT TYPE (Python ints/floats, numpy float32/float64/int32/int64 scalars, float32/float64/int64 '
                 'ndarrays, mixed) rotates over the batches of every family and is swept completely on near ties '
                 'with coordinate differences > 2^12 (float32 products inexact) for float32/int32/int64/float64 '
-                'arrays in the array, at-inds and scalar forms. A case is '
+                'arrays in the array, at-inds and scalar forms; the at-inds form of every kind also with the '
+                'positions as int8/uint8/int16/uint16/int32/uint32/int64 arrays beyond half the type\'s range '
+                '(400 elements; points and lines also 33100), list, negative, empty, read-only, strided, element by '
+                'element against the array form and the scalar form. A case is '
                 'non-trivial when some box separates the elements (some True and some False). '
                 'quick tier: every element of every family is run, against a seeded fraction (1/3 for polylines, '
                 '1/2 otherwise, times rep.scale) of its box batches; thorough tier: all batches for points, '
@@ -657,11 +661,85 @@ def run(rep):
         random_stream(rep, acc, tier)
         band_stream(rep, acc, tier)
         boxtype_stream(rep, acc, tier)
+        inds_forms_stream(rep, tier)
     finally:
         numba.set_num_threads(nthreads)
     rep.extra['bulk_cpu_seconds'] = round(time.process_time(), 1)
     finish(rep, acc, tier, t0)
     run_float_model(rep)
+
+
+# ----------------------------------------------------------------------------
+# the at-inds form with `inds` given in every form a caller may give it
+# ----------------------------------------------------------------------------
+def _wide_element(kind, i, width):
+    x, y = float(i % width), float(i // width)
+    tri = [x, y, x + .5, y, x, y + .5, x, y]
+    return {'point': [x, y], 'multipoint': [x, y, x + .5, y], 'line': [x, y, x + .5, y + .5],
+            'ring': tri, 'multiline': [[x, y, x + .5, y + .5], [x, y + .25, x + .25, y + .25]],
+            'polygon': [tri], 'multipolygon': [[tri]]}[kind]
+
+
+def inds_forms_stream(rep, tier):
+    """intersects_bounds(box, inds) of every kind with the positions given as int8 / uint8 / int16 /
+    uint16 / int32 / uint32 / int64 arrays holding values beyond half the type's range (arrays of
+    400 elements; points and lines also 33 100), as a list, a list of numpy integers, with negative
+    positions, empty, read-only, strided: every answer equal, element by element, to
+    intersects_bounds(box)[position] AND to the scalar form of that element.  (Tuples are not
+    positions for intersects_bounds -- numpy reads them as a multi-dimensional index -- and are
+    not given.)"""
+    t0 = time.time()
+    rng = rep.rng
+    specs = [(kind, 400, 20, {5, 100, 128, 399}) for kind in G.KINDS]
+    specs.append(('point', 400, 20, set()))
+    specs.append(('point', 33100, 200, {64, 16384, 32800}))
+    specs.append(('line', 33100, 200, {70, 20000}))
+    if tier != 'quick':
+        specs += [(kind, 33100, 200, {70, 20000}) for kind in G.KINDS if kind not in ('point', 'line')]
+    for kind, n, width, missing in specs:
+        els = [None if i in missing else _wide_element(kind, i, width) for i in range(n)]
+        arr = G.make_array(kind, els, 'float64')
+        height = (n + width - 1) // width
+        mark_pos = [p for p in (101, 201, 20001, 32901) if p < n]
+        W, H = float(width), float(height)
+        boxes = [(W * 0.11, H * 0.1 + 0.2, W * 0.6, H * 0.85), (W * 0.45 + 0.3, -1.0, W + 1.0, H * 0.5 + 0.1),
+                 (W * 0.7, H * 0.9, W * 0.2 + 0.1, H * 0.3)]
+        for p in mark_pos:      # a box holding one element only: beyond half the range of a narrow type
+            x, y = float(p % width), float(p // width)
+            boxes.append((x - 0.1, y - 0.1, x + 0.6, y + 0.6))
+        for b in boxes:
+            meta = {'family': 'inds-forms', 'kind': kind, 'n': n, 'width': width,
+                    'missing': sorted(missing), 'box': list(b)}
+            try:
+                full = np.asarray(arr.intersects_bounds(b))
+            except Exception as e:  # noqa: BLE001
+                viol(rep, f'inds-form:{kind}:array-form-raises',
+                     f'{kind}: intersects_bounds(box) raised {type(e).__name__}', meta)
+                continue
+            cache = {}
+
+            def scalar_at(p):
+                if p not in cache:
+                    e = arr[p]
+                    cache[p] = False if e is None else bool(e.intersects_bounds(b))
+                return cache[p]
+            forms = U2.inds_forms(rng, n, tuples=False, must=mark_pos)
+            probs = U2.check_inds_forms(forms, lambda inds: arr.intersects_bounds(b, inds), full, scalar_at)
+            rep.count('inds-forms:calls', len(forms))
+            rep.count(f'inds-forms:{kind}')
+            vals = [bool(full[p]) for _, _, pos in forms for p in pos]
+            if any(vals) and not all(vals):
+                rep.count('inds-forms:answers-vary')
+            seen = set()
+            for fname, problem, detail in probs:
+                sig = f'inds-form:{kind}:{problem}'
+                if sig in seen:
+                    continue
+                seen.add(sig)
+                viol(rep, sig, f'{kind}: intersects_bounds(box, inds) with the positions given as {fname}: '
+                     f'{problem} ({detail})',
+                     {**meta, 'form': fname, 'detail': detail, 'all_problems': [[a, c] for a, c, _ in probs][:40]})
+    rep.extra['inds_forms_seconds'] = round(time.time() - t0, 1)
 
 
 def run_float_model(rep):
@@ -1113,6 +1191,13 @@ def replay(rep, rp):
     if rp.get('float_kernel'):
         from . import cfloat_util
         return cfloat_util.replay(rep, rp)
+    if rp.get('family') == 'inds-forms':
+        # deterministic given the seed: run the section again
+        rep._c01_nviol = {}
+        inds_forms_stream(rep, 'quick' if rp.get('n', 400) == 400 or rp.get('kind') == 'point' else 'thorough')
+        for vio in rep.violations:
+            print('  ', vio['signature'], '-', vio['what'])
+        return not rep.violations
     kind = rp['kind']
     q = rp.get('qscale', 1) or 1      # boxes are stored in units of 1/q
 
